@@ -9,7 +9,8 @@ N_SESSION="${N_SESSION:-3000}"; N_WIRE="${N_WIRE:-300}"
 RC=0
 for seed in ${SEEDS:-7172196 1 2 3}; do
   for id in C01 C04 C05 C08 C17 C18 C02 C03 C09 C10; do
-    case $id in C02|C03|C09|C10) n=$N_WIRE;; C08) n=$((N_SESSION/4));; *) n=$N_SESSION;; esac
+    # C01/C04/C05: run indexes below 11754 are the seed-independent timing sweep; go beyond it
+    case $id in C02|C03|C09|C10) n=$N_WIRE;; C08) n=$((N_SESSION/4));; C01|C04|C05) n=$((11754+N_SESSION));; *) n=$N_SESSION;; esac
     ref=""
     for w in 1 5 16 16; do
       out="$(VERIF_SEED=$seed $BIN digests $id $n $w | tail -1)"
